@@ -80,11 +80,18 @@ def gen_case(seed, idx):
         bad[d + "/" + r.choice(forms) + ".svg"] = gen.content(r, small)
     elif defect == "D1g":
         # (U+0067, X) is named g_<hex X>, and so is (X,) when hex X starts with a digit
-        x = r.choice([0x1F600, 0x1F601, 0x270D, 0x2764, 0x31])
-        bad["src/emoji_u%04x.svg" % x] = gen.content(r, small)
-        bad["src/emoji_u0067_%04x.svg" % x] = gen.content(r, small)
+        if r.random() < 0.6:
+            x = r.choice([0x1F600, 0x1F601, 0x270D, 0x2764, 0x31])
+            pair = ((x,), (0x67, x))
+        else:
+            # U+000A..U+000F are spelled "a".."f", exactly like the letters U+0061..U+0066
+            k = r.randrange(6)
+            tail = r.choice([(), (0x1F600,), (0x200D, 0x2764)])
+            pair = ((0x0A + k,) + tail, (0x61 + k,) + tail)
+        for cps in pair:
+            bad["src/emoji_u" + "_".join("%04x" % c for c in cps) + ".svg"] = gen.content(r, small)
         for p in list(srcs):
-            if cps_of[p] in ((x,), (0x67, x)):
+            if cps_of[p] in pair:
                 del srcs[p]
     elif defect == "D1n":
         victim = r.choice(sorted(srcs))
@@ -140,6 +147,7 @@ def gen_case(seed, idx):
     # "same-name" warm-up: the defective files first exist with VALID content and are part of the warm build,
     # so every intermediate of theirs is present and fresh when the defect arrives
     same_name = warm and defect in ("D2", "D3", "D4") and r.random() < 0.5
+    other_dir = warm and not same_name and defect in ("D2", "D3", "D4") and toml is None and r.random() < 0.5
     if warm:
         o_valid = dict(opts)
         if defect == "D6":
@@ -149,6 +157,16 @@ def gen_case(seed, idx):
             for p in sorted(bad):
                 ops.append({"op": "write", "path": p, "content": "corpus:rect.svg" if not small else "corpus:one_rect.svg", "keep": True})
             warm_srcs = sorted(list(srcs) + list(bad))
+        if other_dir:
+            # the warm build is made from same-named, valid files in ANOTHER directory; the defective invocation then
+            # names the real directory: every intermediate path is identical, only the source paths differ
+            warm_srcs = []
+            for p in sorted(list(srcs) + list(bad)):
+                q = "v1/" + os.path.basename(p)
+                ops.append({"op": "write", "path": q, "content": srcs.get(p, "corpus:rect.svg" if not small else "corpus:one_rect.svg"), "keep": True})
+                warm_srcs.append(q)
+            if len({os.path.basename(p) for p in warm_srcs}) != len(warm_srcs):
+                return None
         ops.append({"op": "invoke", "cwd": ".", "argv": argv_for(warm_srcs, o_valid), "build_dir": "build",
                     "label": "warm", "sched": gen.sched(rs), "keep": True})
     for p, c in sorted(bad.items()):
@@ -165,7 +183,7 @@ def gen_case(seed, idx):
     job = {"id": cid + ".j0", "root_id": "c17/%d/%d" % (seed, idx), "hashseed": H(seed, "c17", idx, "hs") % 4294967296,
            "clock_seed": idx, "readdir_seed": H(seed, "c17", idx, "rd") % (1 << 31), "keep_trace": False, "ops": ops}
     return {"id": cid, "jobs": [job], "meta": {"defect": defect, "fmt": fmt, "warm": warm, "font": opts["output_file"],
-                                               "pos": pos, "n_args": len(argv), "bad": sorted(bad), "same_name": same_name}}
+                                               "pos": pos, "n_args": len(argv), "bad": sorted(bad), "same_name": same_name, "other_dir": other_dir}}
 
 
 def gen_cases(seed, tier, scale=1.0):
@@ -228,7 +246,7 @@ def signature(case, results):
     lab = {r.get("label"): r for r in invs}
     m = case["meta"]
     posb = 0 if m["pos"] == 0 else (2 if m["pos"] >= m["n_args"] - 1 else 1)
-    return (m["defect"], m["fmt"], m["warm"], m.get("same_name"), posb, _failing_rule(lab["bad1"]))
+    return (m["defect"], m["fmt"], m["warm"], m.get("same_name"), m.get("other_dir"), posb, _failing_rule(lab["bad1"]))
 
 
 def describe(case):
@@ -243,7 +261,7 @@ def extra_coverage(cases, results):
     per = collections.Counter()
     rule = collections.Counter()
     for c in cases:
-        per["%s/%s" % (c["meta"]["defect"], ("warm-same-name" if c["meta"].get("same_name") else "warm") if c["meta"]["warm"] else "cold")] += 1
+        per["%s/%s" % (c["meta"]["defect"], ("warm-same-name" if c["meta"].get("same_name") else ("warm-other-dir" if c["meta"].get("other_dir") else "warm")) if c["meta"]["warm"] else "cold")] += 1
         lab = {r.get("label"): r for r in orch.invokes(results[c["id"]][0])}
         rule[_failing_rule(lab["bad1"])] += 1
     return {"cases_per_defect_class": dict(sorted(per.items())), "first_failing_step": dict(sorted(rule.items()))}
